@@ -5,6 +5,7 @@ import (
 	"github.com/hneemann/iterator"
 	"github.com/hneemann/parser2/funcGen"
 	"github.com/hneemann/parser2/listMap"
+	"sync"
 )
 
 // MultiUse takes a map of functions, and the list is passed to the functions. The
@@ -75,18 +76,28 @@ func (mu *multiUseEntry) runConsumer(itera iterator.Producer[Value], done func(e
 		}
 	}()
 	st := funcGen.NewEmptyStack[Value]()
+	// The closure may hand the list to a stage that runs in parallel, so the
+	// list may be used by several goroutines at the same time.
+	var useMutex sync.Mutex
 	used := false
-	var innerErr error
+	var useErr error
 	st.Push(NewListFromIterable(func(st funcGen.Stack[Value]) iterator.Producer[Value] {
+		useMutex.Lock()
+		defer useMutex.Unlock()
 		if used {
-			innerErr = errors.New("copied iterator a can only be used once")
+			useErr = errors.New("copied iterator a can only be used once")
 			return iterator.Empty[Value]()
 		}
 		used = true
 		return itera
 	}))
+	secondUse := func() error {
+		useMutex.Lock()
+		defer useMutex.Unlock()
+		return useErr
+	}
 	value, err := mu.fu(st, nil)
-	if innerErr != nil {
+	if innerErr := secondUse(); innerErr != nil {
 		done(innerErr)
 		return
 	}
@@ -99,7 +110,7 @@ func (mu *multiUseEntry) runConsumer(itera iterator.Producer[Value], done func(e
 	// not possible to iterate over a list at any time. Iteration is only possible
 	// synchronously with all iterators at the same time.
 	err = deepEvalLists(st, value)
-	if innerErr != nil {
+	if innerErr := secondUse(); innerErr != nil {
 		// the second use happened while the lazy result was evaluated
 		done(innerErr)
 		return
